@@ -13,7 +13,10 @@ One JSON object per input line, one JSON object per output line.
                 ("cmeths" of a class = the classmethods it offers, inherited ones included; ["cmeth",c,j] = `Cls_c.factory_j(…)`;
                  ["attr",i] = `self._kw = kwargs` … `entry_i(…, **self._kw)` in a method/property)
   -> {"results":[{"out":"ok"|"crash"|"nofuel","params":[{"name","ty","dflt":null|{"tok":s}|{"cond":s},"kind","otuple"},...],
-                  "accepts":[b,...]},...],"wf":b,"acyclic":b,"noclash":b,"bound":n}
+                  "accepts":[b,...],"binder":[null | param (the definition that binds the name at run time),...]},...],"wf":b,"acyclic":b,"noclash":b,"bound":n,"agree":b}
+     ("nameSym":[symbol of the __name__ of entry i,...], "localImp":[[symbol,[library module, identifier symbol]],...] optional;
+      `out`/`params` are computed on `linkS` (the program as the resolver reads it), `accepts`/wf/acyclic/noclash on `linkD`
+      (as Python runs it); agree = noForeignTwoArgSuper && noShadowedLocalImport)
      wf = the decidable hypothesis `WfProg` of theorem C13_exact holds for the program
 -/
 import Lean.Data.Json
@@ -134,20 +137,30 @@ def pairOf (j : Json) : Nat × Nat :=
 def moduleOf (j : Json) : Jap.Resolver.Module :=
   { globals := (jArr j "globals").map pairOf, flip := jBool j "flip" }
 
-/-- a program spread over modules (`"mods"` present: targets hold symbols, see Core/ResolverMod) is linked first -/
-def progOf (j : Json) : Prog :=
+def pairNatOf (j : Json) : Nat × (Nat × Nat) :=
+  match j with
+  | .arr #[a, .arr #[b, c]] => (jNat a, (jNat b, jNat c))
+  | _ => (0, (0, 0))
+
+/-- a program spread over modules (`"mods"` present: targets hold symbols, see Core/ResolverMod): (as the resolver
+    reads it, as Python runs it, the two lookups agree); a plain program is both -/
+def progsOf (j : Json) : Prog × Prog × Bool :=
   match j.getObjVal? "prog" with
   | .ok p =>
-    let src : Prog := ⟨(jArr p "entries").map entryOf⟩
+    let src : Prog := ⟨(jArr p "entries").map entryOf, []⟩
     match p.getObjVal? "mods" with
     | .ok (.arr ms) =>
-      link { src := src, modOf := (jArr p "modOf").map jNat,
-             cmDef := (jArr p "cmDef").map (fun r => match r with
-               | .arr xs => xs.toList.map jNat
-               | _ => []),
-             mods := ms.toList.map moduleOf }
-    | _ => src
-  | _ => ⟨[]⟩
+      let MP : MProg :=
+        { src := src, modOf := (jArr p "modOf").map jNat,
+          cmDef := (jArr p "cmDef").map (fun r => match r with
+            | .arr xs => xs.toList.map jNat
+            | _ => []),
+          mods := ms.toList.map moduleOf,
+          nameSym := (jArr p "nameSym").map jNat,
+          localImp := (jArr p "localImp").map pairNatOf }
+      (linkS MP, linkD MP, noForeignTwoArgSuper MP && noShadowedLocalImport MP)
+    | _ => (src, src, true)
+  | _ => (⟨[], []⟩, ⟨[], []⟩, true)
 
 def cidOf (j : Json) : CId :=
   match j with
@@ -168,12 +181,12 @@ def paramToJson (p : Param) : Json :=
       | .kwOnly => "ko")),
     ("otuple", .bool p.otuple)]
 
-def answer (P : Prog) (q : Json) : Json :=
+def answer (S P : Prog) (q : Json) : Json :=
   let c := match q.getObjVal? "q" with
     | .ok x => cidOf x
     | _ => .entry 0
   let ns := jStrs q "names"
-  let out := resolveOut P c
+  let out := resolveOut S c
   let (tag, ps) := match out with
     | .ok ps => ("ok", ps)
     | .crash => ("crash", [])
@@ -181,12 +194,16 @@ def answer (P : Prog) (q : Json) : Json :=
   Json.mkObj [
     ("out", .str tag),
     ("params", .arr (ps.map paramToJson).toArray),
-    ("accepts", .arr (ns.map fun n => Json.bool (accepts P c n)).toArray)]
+    ("accepts", .arr (ns.map fun n => Json.bool (accepts P c n)).toArray),
+    ("binder", .arr (ns.map fun n => match binder P c n with
+      | some q => paramToJson q
+      | none => Json.null).toArray)]
 
 def step (j : Json) : Json :=
-  let P := progOf j
+  let (S, P, agree) := progsOf j
   Json.mkObj [
-    ("results", .arr ((jArr j "queries").map (answer P)).toArray),
+    ("results", .arr ((jArr j "queries").map (answer S P)).toArray),
+    ("agree", .bool agree),
     ("wf", .bool (WfProg P)),
     ("acyclic", .bool P.acyclic),
     ("noclash", .bool (noPopClash P)),
